@@ -7,12 +7,17 @@ R1 tag-keyed firing idiom.  Every function that calls `_group_by_tag(inputs, inp
    (a) groups before it tests, (b) fires a tag only on `len(inputs_map[tag]) == len(<ports>)` where
    <ports> denotes the same port mapping that was handed to `_get_inputs` (`self.input_ports` and
    `self.get_input_ports()` have the same key set; a filtered local mapping must be used on both
-   sides; for a helper that receives `inputs` as a parameter the caller must pass the mapping it reads),
+   sides; for a helper that receives `inputs` as a parameter the caller must pass the mapping it reads);
+   either operand may be kept in a temporary (`n = len(inputs_map[tag])` ... `if n == len(ports):`): it is
+   read through its reaching definition(s), the grouping must dominate the place where the size is
+   *evaluated*, and no grouping may lie between that place and the test,
    (c) removes the fired tag from the map on every path through the firing branch (`pop`/`del`),
    (d) iterates a snapshot of the keys while it pops.  Firing on `>=`, on a different port set, or
    without removing the tag pairs tokens by arrival instead of by tag / fires a tag twice.
    (e) every other `_get_inputs` reader that reads more than one port must group by tag as well
-   (single-key dict literal or a dominating `len(ports) != 1 -> raise` guard = one port).
+   (single-key dict literal or a dominating `len(ports) != 1 -> raise` guard = one port; the guard is
+   recognised by the edge on which `len(ports) == 1` is implied -- `!=`, `not ==`, flipped operands, a
+   size kept in a temporary -- whose other edge never returns normally).
 R2 `StreamFlowExecutor._wait_outputs` / `run`: results are stored under the name of the task that
    delivered them, every output task is named after the port it reads, and the re-armed task reads the
    port with the consumed task's name.  An output task is recognised by what the stored value denotes,
@@ -112,6 +117,21 @@ def ports_canon(f, e, nid) -> set[str]:
     return out
 
 
+def _operand(f, e, nid, depth: int = 4):
+    """(expression, [CFG nodes where it is evaluated]) the operand `e` of a test at CFG node `nid` denotes: a local
+    whose reaching definitions are all plain assignments / walruses of the same expression is read as that
+    expression (`n = len(inputs_map[tag])` ... `if n == len(ports):`); anything else is the operand itself,
+    evaluated in the test."""
+    e = strip_await(e)
+    sites = [nid]
+    while depth > 0 and isinstance(e, ast.Name) and scoped_binding(e) is None and len(sites) == 1 and sites[0] is not None:
+        ds = rdefs(f, e.id, sites[0], use=e)
+        if not ds or not all(d.kind in ("assign", "walrus") and d.index is None for d in ds) or any(not same(ds[0].value, d.value) for d in ds[1:]):
+            break
+        e, sites, depth = strip_await(ds[0].value), [d.nid for d in ds], depth - 1
+    return e, sites
+
+
 def _get_inputs_calls(p, f):
     return [c for c in f.calls() if isinstance(c.func, ast.Attribute) and c.func.attr == "_get_inputs" and resolves_to(p, f, c, f"{STEP}.BaseStep._get_inputs", "_get_inputs")]
 
@@ -147,35 +167,47 @@ def _idiom(ctx, f, call):
             sides = [cmp_.left, cmp_.comparators[0]]
             hit = None
             for i, s in enumerate(sides):
-                ln = builtin_call(f, s, "len")
+                # the operand is read through its reaching definition: `n = len(inputs_map[tag])` ... `if n == len(ports):`
+                so, sites_ = _operand(f, s, t.id)
+                ln = builtin_call(f, so, "len")
                 if ln is not None and len(ln.args) == 1:
                     a = ln.args[0]
                     if isinstance(a, ast.Subscript) and isinstance(a.value, ast.Name) and a.value.id == m:
-                        hit = (a.slice, sides[1 - i], edge)
+                        hit = (a.slice, sides[1 - i], edge, sites_)
                     elif (mc := method_call(a, "get")) is not None and isinstance(mc.func.value, ast.Name) and mc.func.value.id == m and mc.args:
-                        hit = (mc.args[0], sides[1 - i], edge)
+                        hit = (mc.args[0], sides[1 - i], edge, sites_)
             if hit:
                 tests.append((t, *hit))
     if not tests:
         ctx.ob("R1", f"{who}: a tag fires on len(inputs_map[tag]) == len(ports)", False, func=f, node=call, instance=f"{who}:test",
                message="tokens are grouped by tag but no completeness test on the group was found: groups fire incomplete or never")
         return
-    for t, T, other, edge in tests:
-        # (a)
-        ctx.ob("R1", f"{who}: tokens are grouped by tag before the completeness test", g.dominates(cn, t.id), func=f, node=t.ast,
-               instance=f"{who}:group-first", message="the completeness test can run before the arrived tokens were grouped")
+    for t, T, other, edge, sized_at in tests:
+        # (a) the group is counted (where the size is evaluated: the test itself or the temporary it reads) after the grouping,
+        #     and no grouping happens between a count kept in a temporary and the test that reads it
+        grouped_first = g.dominates(cn, t.id) and all(g.dominates(cn, sn) for sn in sized_at)
+        stale = any(sn != t.id and cn in g.reach([sn], avoid=[t.id]) and t.id in g.reach([cn], avoid=[sn]) for sn in sized_at)
+        ctx.ob("R1", f"{who}: tokens are grouped by tag before the completeness test", grouped_first and not stale, func=f, node=t.ast,
+               instance=f"{who}:group-first", message="the completeness test can run before the arrived tokens were grouped"
+               if not grouped_first else "the group size is taken before the arrived tokens are grouped and tested afterwards")
         # (b) operator and operands
         ok, msg = True, ""
         ln2 = builtin_call(f, other, "len")
+        at2 = t.id
         if edge.startswith("op:"):
             ok, msg = False, f"the group size is compared with `{edge[3:]}` instead of ==: a tag fires before it is complete or more than once"
         elif ln2 is None or len(ln2.args) != 1:
-            oo = single_origin(f, other, t.id)
+            oo, osites = _operand(f, other, t.id)
             ln2 = builtin_call(f, oo, "len") if oo is not None else None
+            if ln2 is None or len(ln2.args) != 1:
+                oo = single_origin(f, other, t.id)
+                ln2 = builtin_call(f, oo, "len") if oo is not None else None
+            elif len(osites) == 1:
+                at2 = osites[0]
             if ln2 is None or len(ln2.args) != 1:
                 ok, msg = False, f"the group size is compared with `{unparse(other)}`, not with the number of ports read"
         if ok:
-            counted = ports_canon(f, ln2.args[0], t.id)
+            counted = ports_canon(f, ln2.args[0], at2)
             if param_mode:
                 ok = len(counted) == 1 and next(iter(counted)).startswith("param:")
                 msg = f"{who} receives the tokens as a parameter but counts `{unparse(ln2.args[0])}`, which is not the port mapping parameter"
@@ -333,16 +365,23 @@ def r1(ctx):
         cn = nid_of(f, c)
         guard = False
         for t in g.nodes.values():
-            if t.kind != "test" or not isinstance(t.ast, ast.Compare) or len(t.ast.ops) != 1 or cn is None:
+            if t.kind != "test" or cn is None or P is None:
                 continue
-            ln = builtin_call(f, t.ast.left, "len")
-            if ln is None or not ln.args or not is_const(t.ast.comparators[0], 1) or not isinstance(t.ast.ops[0], ast.NotEq):
-                continue
-            if P is None or ports_canon(f, ln.args[0], t.id) != ports_canon(f, P, cn):
-                continue
-            ts = branch_succ(g, t.id, "t")
-            if g.dominates(t.id, cn) and ts and all(g.exit not in g.reach([s], include_src=True) for s in ts):
-                guard = True
+            # `len(P) == 1` is known on one edge of the test (however the test is spelled: `!=`, `not ==`, a local
+            # boolean, a size kept in a temporary) and the other edge never returns normally
+            for cmp_, edge in test_compares(f, t):
+                if edge not in ("t", "f"):
+                    continue
+                sides = [_operand(f, cmp_.left, t.id), _operand(f, cmp_.comparators[0], t.id)]
+                for i, (so, sites_) in enumerate(sides):
+                    ln = builtin_call(f, so, "len")
+                    if ln is None or len(ln.args) != 1 or not is_const(sides[1 - i][0], 1):
+                        continue
+                    if ports_canon(f, ln.args[0], sites_[0] if len(sites_) == 1 else t.id) != ports_canon(f, P, cn):
+                        continue
+                    ts = branch_succ(g, t.id, "f" if edge == "t" else "t")
+                    if g.dominates(t.id, cn) and ts and all(g.exit not in g.reach([s], include_src=True) for s in ts):
+                        guard = True
         ctx.ob("R1", f"{who}: tokens read from several ports are grouped by tag", callee_groups or guard, func=f, node=c,
                instance=f"{who}:reader", message=f"{who} reads several ports with _get_inputs and pairs the tokens by arrival order (no _group_by_tag)")
 
@@ -706,6 +745,7 @@ _S = f"{STEP}.ScheduleStep.run"
 _T = f"{STEP}.TransferStep.run"
 _X = f"{STEP}.Transformer.run"
 
+_I20 = " " * 20
 _NEW_TASK = "self.output_tasks[port_name] = asyncio.create_task(self._handle_exception(asyncio.create_task(port.get(output_consumer))), name=port_name)"
 _REARM_TASK = "self.output_tasks[task_name] = asyncio.create_task(self._handle_exception(asyncio.create_task(self.workflow.get_output_port(task_name).get(output_consumer))), name=task_name)"
 _HELPER = ("def _create_output_task(executor, port_name, port, output_consumer):\n"
@@ -754,6 +794,33 @@ VARIANTS = [
     V("benign: _wait_outputs temporaries and logging", EFILE, _W, "output_tokens[task_name] = get_token_value(token)",
       "value = get_token_value(token)\n            logger.debug(task_name)\n            output_tokens[task_name] = value", None),
     V("benign: _wait_outputs re-arm via get_output_ports()[name]", EFILE, _W, "self.workflow.get_output_port(task_name).get(output_consumer)", "self.workflow.get_output_ports()[task_name].get(output_consumer)", None),
+    # testtemp: the left operand of the test is evaluated into a temporary first
+    V("benign: ConditionalStep group size through a temporary", SFILE, _C, _I20 + "if len(inputs_map[tag]) == len(self.input_ports):",
+      _I20 + "_sf_l1 = len(inputs_map[tag])\n" + _I20 + "if _sf_l1 == len(self.input_ports):", None),
+    V("benign: DeployStep group size through a temporary", SFILE, _D, _I20 + "if len(inputs_map[tag]) == len(self.input_ports):",
+      _I20 + "_sf_l1 = len(inputs_map[tag])\n" + _I20 + "if _sf_l1 == len(self.input_ports):", None),
+    V("benign: ExecuteStep._check_inputs group size through a temporary", SFILE, _E, _I20[:12] + "if len(inputs_map[tag]) == len(input_ports):",
+      _I20[:12] + "_sf_l1 = len(inputs_map[tag])\n" + _I20[:12] + "if _sf_l1 == len(input_ports):", None),
+    V("benign: ScheduleStep both sizes through temporaries, flipped", SFILE, _S, _I20 + "if len(inputs_map[tag]) == len(input_ports):",
+      _I20 + "_sf_l1 = len(inputs_map[tag])\n" + _I20 + "_sf_r1 = len(input_ports)\n" + _I20 + "if not _sf_r1 != _sf_l1:", None),
+    V("benign: TransferStep group size through a temporary", SFILE, _T, _I20 + "if len(inputs_map[tag]) == len(input_ports):",
+      _I20 + "_sf_l1 = len(inputs_map[tag])\n" + _I20 + "if _sf_l1 == len(input_ports):", None),
+    V("benign: Transformer group size through a chain of temporaries", SFILE, _X, _I20 + "if len(inputs_map[tag]) == len(input_ports):",
+      _I20 + "_sf_l1 = len(inputs_map[tag])\n" + _I20 + "_sf_l2 = _sf_l1\n" + _I20 + "if _sf_l2 == len(input_ports):", None),
+    V("benign: InputInjectorStep one-port guard through a temporary", SFILE, f"{STEP}.InputInjectorStep.run", "    if len(input_ports) != 1:",
+      "    _sf_l1 = len(input_ports)\n    if _sf_l1 != 1:", None),
+    V("benign: InputInjectorStep one-port guard as not ==, flipped", SFILE, f"{STEP}.InputInjectorStep.run", "    if len(input_ports) != 1:",
+      "    if not 1 == len(input_ports):", None),
+    V("Transformer: >= through a temporary", SFILE, _X, _I20 + "if len(inputs_map[tag]) == len(input_ports):",
+      _I20 + "_sf_l1 = len(inputs_map[tag])\n" + _I20 + "if _sf_l1 >= len(input_ports):", "R1"),
+    V("ScheduleStep counts all ports through a temporary", SFILE, _S, _I20 + "if len(inputs_map[tag]) == len(input_ports):",
+      _I20 + "_sf_r1 = len(self.input_ports)\n" + _I20 + "if len(inputs_map[tag]) == _sf_r1:", "R1"),
+    V("TransferStep: group size taken before a grouping and tested after it", SFILE, _T, _I20 + "if len(inputs_map[tag]) == len(input_ports):",
+      _I20 + "_sf_l1 = len(inputs_map[tag])\n" + _I20 + "more = await self._get_inputs(input_ports)\n" + _I20 + "_group_by_tag(more, inputs_map)\n" + _I20 + "if _sf_l1 == len(input_ports):", "R1"),
+    V("InputInjectorStep: one-port guard weakened through a temporary", SFILE, f"{STEP}.InputInjectorStep.run", "    if len(input_ports) != 1:",
+      "    _sf_l1 = len(input_ports)\n    if _sf_l1 < 1:", "R1"),
+    V("InputInjectorStep: guard counts another mapping through a temporary", SFILE, f"{STEP}.InputInjectorStep.run", "    if len(input_ports) != 1:",
+      "    _sf_l1 = len(self.output_ports)\n    if _sf_l1 != 1:", "R1"),
     # helper extraction (B1-1): the create_task block moved into a function that returns / stores the task
     V("benign: new-port and run tasks created by a helper that returns the task", EFILE, EXE, _NEW_TASK, "self.output_tasks[port_name] = _create_output_task(self, port_name, port, output_consumer)", None, count=2, append=_HELPER),
     V("benign: re-arm through the helper, port passed as argument", EFILE, _W, _REARM_TASK,
